@@ -678,3 +678,46 @@ Example body_roundtrip_example :
   = EOk [PBlock [98] [[108]] [PAttr [97] (EBin OpAdd (EScopeTrav [120] []) (EScopeTrav [121] []))];
          PAttr [97] (EScopeTrav [122] [])] [].
 Proof. vm_compute. reflexivity. Qed.
+
+(* ---- readable corollaries ------------------------------------------------------------------------------
+   The structure of a body without the expressions: attribute names, block types, label
+   sequences (after escape processing: for a quoted label, the concatenation of the decoded
+   literal tokens), nesting, source order. *)
+Inductive skel := SkAttr (name : list Z) | SkBlock (type : list Z) (labels : list (list Z)) (body : list skel).
+
+Fixpoint pitem_skel (i : pitem) : skel :=
+  match i with
+  | PAttr n _ => SkAttr n
+  | PBlock t ls b => SkBlock t ls (map pitem_skel b)
+  end.
+Fixpoint aitem_skel (i : aitem) : skel :=
+  match i with
+  | AAttr n _ => SkAttr n
+  | ABlock t ls b => SkBlock t ls (map aitem_skel b)
+  end.
+
+Fixpoint skel_to_pitem (i : aitem) : pitem_skel (to_pitem i) = aitem_skel i :=
+  match i with
+  | AAttr n e => eq_refl
+  | ABlock t ls b =>
+      f_equal (SkBlock t ls)
+        ((fix go (l : list aitem) : map pitem_skel (map to_pitem l) = map aitem_skel l :=
+            match l with
+            | [] => eq_refl
+            | x :: r => f_equal2 cons (skel_to_pitem x) (go r)
+            end) b)
+  end.
+
+(* the parsed body exposes exactly the written structure, for every layout *)
+Corollary body_structure_exposed : forall items ts,
+  r_file items ts -> names_unique items ->
+  exists b, parse_config ts = EOk b [] /\ map pitem_skel b = map aitem_skel items.
+Proof.
+  intros items ts Hr Hu. exists (map to_pitem items). split; [apply body_roundtrip; assumption|].
+  rewrite map_map. apply map_ext. apply skel_to_pitem.
+Qed.
+
+(* two renderings of one tree give the same result (even when it has duplicates) *)
+Corollary layout_independent : forall items ts1 ts2,
+  r_file items ts1 -> r_file items ts2 -> parse_config ts1 = parse_config ts2.
+Proof. intros items ts1 ts2 H1 H2. rewrite (parse_file _ _ H1), (parse_file _ _ H2). reflexivity. Qed.
